@@ -115,6 +115,27 @@ pub fn hash_no_pad(inputs: &[u64]) -> [u64; 4] {
     [st[0], st[1], st[2], st[3]]
 }
 
+/// Overwrite-mode sponge without padding, rate 8, squeezing `m` outputs (8 per permutation).
+pub fn hash_n_to_m(inputs: &[u64], m: usize) -> Vec<u64> {
+    let mut st = [0u64; 12];
+    for chunk in inputs.chunks(8) {
+        for (i, &x) in chunk.iter().enumerate() {
+            st[i] = x % P;
+        }
+        st = poseidon(st);
+    }
+    let mut out = Vec::new();
+    loop {
+        for i in 0..8 {
+            out.push(st[i]);
+            if out.len() == m {
+                return out;
+            }
+        }
+        st = poseidon(st);
+    }
+}
+
 pub fn two_to_one(a: [u64; 4], b: [u64; 4]) -> [u64; 4] {
     let mut st = [0u64; 12];
     st[..4].copy_from_slice(&a);
